@@ -532,134 +532,167 @@ def run(tier):
     rruns = runs_of(revs)
     if len(rruns) != nrec:
         raise vlib.ToolError("recorder lost runs")
-    cfgs, pws, itemcls = set(), set(), set()
-    for reset, calls in rruns:
-        itemcls.add("prep." + reset["prep"])
-        c0 = reset["cfg"]
-        # an Identity crypt filter under a custom name as default filter; Identity overrides (every form) on streams
-        # whose dictionaries hold long strings
-        for nm in (c0["stmf"], c0["strf"]):
-            if nm != "Identity" and any(e[0] == nm and e[1] == "Identity" for e in c0["cf"]):
-                itemcls.add("cf.custom-name.identity.default")
+    def classes_of(rruns):
+        """input classes of recorded runs (anti-vacuity is computed from inputs only)"""
+        cfgs, pws, itemcls = set(), set(), set()
+        for reset, calls in rruns:
+            itemcls.add("prep." + reset["prep"])
+            c0 = reset["cfg"]
+            # an Identity crypt filter under a custom name as default filter; Identity overrides (every form) on streams
+            # whose dictionaries hold long strings
+            for nm in (c0["stmf"], c0["strf"]):
+                if nm != "Identity" and any(e[0] == nm and e[1] == "Identity" for e in c0["cf"]):
+                    itemcls.add("cf.custom-name.identity.default")
 
-        # a stream whose /Length is a reference to an integer object, under a length-changing (AES) stream filter, taken
-        # through Encrypt -> Save -> Load -> Decrypt with a right password
-        def stm_method(o):
-            cr = o["crypt"]
-            nm = c0["stmf"] if cr["f"] == "none" else cr["n"] if cr["f"] in ("name", "arr") else "Identity"
-            return next((e[1] for e in c0["cf"] if e[0] == nm), "Identity" if c0["V"] >= 4 else "RC4")
-        if any(o["k"] == "stream" and o.get("il") and o["len"] > 0 and c0["V"] >= 4 and stm_method(o).startswith("AES") for o in reset["objs"]):
-            st = 0
-            for c in calls:
-                if c["call"] == "Rekey":
-                    break
-                if c["call"] == "Encrypt" and c["res"] == "Ok":
-                    st = 1
-                elif c["call"] == "Save" and st == 1:
-                    st = 2
-                elif c["call"] == "Load" and st == 2:
-                    st = 3
-                elif c["call"] == "Decrypt" and st == 3 and "same" in (c["rel"]["u"], c["rel"]["o"]):
-                    itemcls.add("indirect.length.aes.viafile")
-                elif c["call"] == "Load" and st == 3 and False:
-                    pass
-
-        def has_long_str(o):
-            return (o["k"] == "str" and o["len"] >= 16) or any(has_long_str(x) for x in o.get("v", []) + o.get("d", []))
-        for o in reset["objs"]:
-            if o["k"] == "stream" and o["crypt"]["f"] != "none" and c0["V"] >= 4 and any(has_long_str(x) for x in o["d"]):
+            # a stream whose /Length is a reference to an integer object, under a length-changing (AES) stream filter, taken
+            # through Encrypt -> Save -> Load -> Decrypt with a right password
+            def stm_method(o):
                 cr = o["crypt"]
-                if cr["f"] in ("noname", "nodp") or cr["n"] == "Identity" or not any(e[0] == cr["n"] for e in c0["cf"]):
-                    itemcls.add("identity.override.%s.dict.string" % ("missing-name" if cr["f"] in ("name", "arr") and cr["n"] != "Identity" else cr["f"]))
-        if c0["R"] <= 4 and not c0["urep"]:
-            itemcls.add("pw.user.unencodable")
-        if c0["R"] <= 4 and not c0["orep"]:
-            itemcls.add("pw.owner.unencodable")
-        if any(ord(ch) >= 0x1F000 for ch in map(chr, reset["user"] + reset["owner"])):
-            itemcls.add("pw.emoji")
-        for nm in ("user", "owner"):
-            cs = [ord(ch) < 256 for ch in map(chr, reset[nm])]
-            if c0["R"] <= 4 and any(cs) and not all(cs):
-                itemcls.add("pw.mixed")
-        saved_enc = tenc = False
-        for i, c in enumerate(calls):
-            if c["call"] == "SaveRev" and c["res"] == "Ok" and i + 1 < len(calls) and calls[i + 1]["call"] == "Load":
-                itemcls.add("two-revision.objstm.file.loaded")
-                if "same" in (c0["e"]["u"], c0["e"]["o"]):
-                    itemcls.add("two-revision.objstm.file.autodecrypt")
-                if any(d["call"] == "Decrypt" and "same" in (d["rel"]["u"], d["rel"]["o"]) for d in calls[i + 2:]):
-                    itemcls.add("two-revision.objstm.file.decrypt")
-            if c["call"] == "Save":
-                saved_enc = tenc
-            if c["call"] == "SaveInc" and saved_enc and i + 1 < len(calls) and calls[i + 1]["call"] == "Load":
-                itemcls.add("incremental.update.of.encrypted.file")
-                if "same" in (c0["e"]["u"], c0["e"]["o"]):
-                    itemcls.add("incremental.update.of.encrypted.file.emptypw")
-            tenc = c["tenc"]
-        cur, was_dec = c0, False
-        for c in calls:
-            if c["call"] in ("Decrypt", "AuthUser", "AuthOwner", "Auth") and cur["R"] <= 4 and not c["rel"]["rep"] \
-                    and c["rel"]["u"] == "diff" and c["rel"]["o"] == "diff" and not (cur["urep"] and cur["orep"]):
-                itemcls.add("offer.differs.in.unencodable")
-            if c["call"] == "Decrypt" and c["res"] == "Ok":
-                was_dec = True
-            if c["call"] == "Rekey" and c["res"] == "Ok":
-                if was_dec and cur["V"] >= 4 and c["cfg"]["V"] < 4:
-                    itemcls.add("rekey.V4+.to.V2-")
-                cur = c["cfg"]
-            if c["call"] == "Encrypt" and c["res"] == "Ok":
-                for itm in c["items"]:
-                    if itm["kind"] == "stream" and itm["crypt"]["f"] != "none" and cur["V"] < 4 and itm["len"] >= 16:
-                        itemcls.add("crypt.entry.belowV4")
-                    if itm["kind"] == "str" and itm["insd"] and itm["otyp"] == "Metadata" and itm["len"] >= 16:
-                        itemcls.add("metadata.dict.string.em=%s" % (cur["em"] if cur["V"] >= 4 else True))
-        members = {p for o in reset["objs"] if o["k"] == "stream" for p in o["mem"]}
-        st = 0
-        for c in calls:   # an object-stream member edited, then encrypted and decrypted with a right password in memory
-            if c["call"] == "Edit" and c["pos"] in members and c["res"] == "Ok" and st == 0:
-                st = 1
-            elif c["call"] == "Encrypt" and st == 1:
-                st = 2
-            elif c["call"] == "Load" and st >= 1:
+                nm = c0["stmf"] if cr["f"] == "none" else cr["n"] if cr["f"] in ("name", "arr") else "Identity"
+                return next((e[1] for e in c0["cf"] if e[0] == nm), "Identity" if c0["V"] >= 4 else "RC4")
+            if any(o["k"] == "stream" and o.get("il") and o["len"] > 0 and c0["V"] >= 4 and stm_method(o).startswith("AES") for o in reset["objs"]):
                 st = 0
-            elif c["call"] == "Decrypt" and st == 2 and "same" in (c["rel"]["u"], c["rel"]["o"]):
-                itemcls.add("member.edit.roundtrip")
-            if c["call"] == "Edit" and c["res"] == "Ok":
-                itemcls.add("edit")
-            if c["call"] == "Delete" and c["res"] == "Ok" and c["pos"] in members:
-                itemcls.add("delete.member")
-            if c["call"] == "Decrypt" and c0["R"] >= 5 and c0["olen"] == 0 and c0["ulen"] > 0 and len(c.get("pw", [0])) == 0:
-                itemcls.add("empty.offer.with.empty.owner.R56")
-            if c["call"] == "Encrypt" and any(itm["crypt"]["ind"] and itm["len"] >= 16 for itm in c["items"]):
-                itemcls.add("crypt.indirect.parameters")
-        cfgs.add(cfg_class(reset["cfg"]))
-        u, o = "".join(map(chr, reset["user"])), "".join(map(chr, reset["owner"]))
-        pws |= pw_class(u) | pw_class(o) | ({"owner=user"} if u == o else set())
-        chk.case(json.dumps([reset["cfg"], reset["user"], reset["owner"], reset["objs"], [[c["call"], c.get("pw", "")] for c in calls]])
-                 if any(c["call"] == "Encrypt" and c["res"] == "Ok" for c in calls) else None)
-        if calls:
-            for itm in calls[0]["items"]:
-                if itm["kind"] == "str" and itm["insd"]:
-                    itemcls.add("streamdict")
-                if itm["otyp"] == "Metadata":
-                    itemcls.add("metadata")
-                if itm["crypt"]["f"] != "none":
-                    itemcls.add("crypt." + itm["crypt"]["f"])
-                if itm["len"] == 0:
-                    itemcls.add("empty." + itm["kind"])
-                if itm["len"] >= 16 and not itm["insd"]:
-                    itemcls.add("long." + itm["kind"])
-                if itm["otyp"] == "ObjStm":
-                    itemcls.add("objstm.container")
-                if itm["osm"]:
-                    itemcls.add("objstm.member")
-    missing = (need - cfgs) | ({"empty", "ascii", "non-latin", "gt32", "gt127", "owner=user"} - pws) | \
-              ({"streamdict", "metadata", "crypt.name", "crypt.arr", "crypt.nodp", "crypt.noname", "empty.str", "empty.stream", "long.str", "long.stream",
-                "pw.user.unencodable", "pw.owner.unencodable", "pw.emoji", "pw.mixed", "offer.differs.in.unencodable",
-                "rekey.V4+.to.V2-", "crypt.entry.belowV4", "two-revision.objstm.file.loaded", "two-revision.objstm.file.autodecrypt",
-                "two-revision.objstm.file.decrypt", "delete.member", "indirect.length.aes.viafile", "cf.custom-name.identity.default", "identity.override.name.dict.string",
-                "identity.override.noname.dict.string", "identity.override.nodp.dict.string", "identity.override.missing-name.dict.string", "empty.offer.with.empty.owner.R56", "crypt.indirect.parameters", "incremental.update.of.encrypted.file", "incremental.update.of.encrypted.file.emptypw", "metadata.dict.string.em=True", "metadata.dict.string.em=False",
-                "prep.mem", "prep.file-objstm", "prep.file-xrefstm", "objstm.container", "objstm.member", "edit", "member.edit.roundtrip"} - itemcls)
+                for c in calls:
+                    if c["call"] == "Rekey":
+                        break
+                    if c["call"] == "Encrypt" and c["res"] == "Ok":
+                        st = 1
+                    elif c["call"] == "Save" and st == 1:
+                        st = 2
+                    elif c["call"] == "Load" and st == 2:
+                        st = 3
+                    elif c["call"] == "Decrypt" and st == 3 and "same" in (c["rel"]["u"], c["rel"]["o"]):
+                        itemcls.add("indirect.length.aes.viafile")
+                    elif c["call"] == "Load" and st == 3 and False:
+                        pass
+
+            def has_long_str(o):
+                return (o["k"] == "str" and o["len"] >= 16) or any(has_long_str(x) for x in o.get("v", []) + o.get("d", []))
+            for o in reset["objs"]:
+                if o["k"] == "stream" and o["crypt"]["f"] != "none" and c0["V"] >= 4 and any(has_long_str(x) for x in o["d"]):
+                    cr = o["crypt"]
+                    if cr["f"] in ("noname", "nodp") or cr["n"] == "Identity" or not any(e[0] == cr["n"] for e in c0["cf"]):
+                        itemcls.add("identity.override.%s.dict.string" % ("missing-name" if cr["f"] in ("name", "arr") and cr["n"] != "Identity" else cr["f"]))
+            if c0["R"] <= 4 and not c0["urep"]:
+                itemcls.add("pw.user.unencodable")
+            if c0["R"] <= 4 and not c0["orep"]:
+                itemcls.add("pw.owner.unencodable")
+            if any(ord(ch) >= 0x1F000 for ch in map(chr, reset["user"] + reset["owner"])):
+                itemcls.add("pw.emoji")
+            for nm in ("user", "owner"):
+                cs = [ord(ch) < 256 for ch in map(chr, reset[nm])]
+                if c0["R"] <= 4 and any(cs) and not all(cs):
+                    itemcls.add("pw.mixed")
+            saved_enc = tenc = False
+            for i, c in enumerate(calls):
+                if c["call"] == "SaveRev" and c["res"] == "Ok" and i + 1 < len(calls) and calls[i + 1]["call"] == "Load":
+                    itemcls.add("two-revision.objstm.file.loaded")
+                    if "same" in (c0["e"]["u"], c0["e"]["o"]):
+                        itemcls.add("two-revision.objstm.file.autodecrypt")
+                    if any(d["call"] == "Decrypt" and "same" in (d["rel"]["u"], d["rel"]["o"]) for d in calls[i + 2:]):
+                        itemcls.add("two-revision.objstm.file.decrypt")
+                if c["call"] == "Save":
+                    saved_enc = tenc
+                if c["call"] == "SaveInc" and saved_enc and i + 1 < len(calls) and calls[i + 1]["call"] == "Load":
+                    itemcls.add("incremental.update.of.encrypted.file")
+                    if "same" in (c0["e"]["u"], c0["e"]["o"]):
+                        itemcls.add("incremental.update.of.encrypted.file.emptypw")
+                tenc = c["tenc"]
+            cur, was_dec = c0, False
+            for c in calls:
+                if c["call"] in ("Decrypt", "AuthUser", "AuthOwner", "Auth") and cur["R"] <= 4 and not c["rel"]["rep"] \
+                        and c["rel"]["u"] == "diff" and c["rel"]["o"] == "diff" and not (cur["urep"] and cur["orep"]):
+                    itemcls.add("offer.differs.in.unencodable")
+                if c["call"] == "Decrypt" and c["res"] == "Ok":
+                    was_dec = True
+                if c["call"] == "Rekey" and c["res"] == "Ok":
+                    if was_dec and cur["V"] >= 4 and c["cfg"]["V"] < 4:
+                        itemcls.add("rekey.V4+.to.V2-")
+                    cur = c["cfg"]
+                if c["call"] == "Encrypt" and c["res"] == "Ok":
+                    for itm in c["items"]:
+                        if itm["kind"] == "stream" and itm["crypt"]["f"] != "none" and cur["V"] < 4 and itm["len"] >= 16:
+                            itemcls.add("crypt.entry.belowV4")
+                        if itm["kind"] == "str" and itm["insd"] and itm["otyp"] == "Metadata" and itm["len"] >= 16:
+                            itemcls.add("metadata.dict.string.em=%s" % (cur["em"] if cur["V"] >= 4 else True))
+            members = {p for o in reset["objs"] if o["k"] == "stream" for p in o["mem"]}
+            st = 0
+            for c in calls:   # an object-stream member edited, then encrypted and decrypted with a right password in memory
+                if c["call"] == "Edit" and c["pos"] in members and c["res"] == "Ok" and st == 0:
+                    st = 1
+                elif c["call"] == "Encrypt" and st == 1:
+                    st = 2
+                elif c["call"] == "Load" and st >= 1:
+                    st = 0
+                elif c["call"] == "Decrypt" and st == 2 and "same" in (c["rel"]["u"], c["rel"]["o"]):
+                    itemcls.add("member.edit.roundtrip")
+                if c["call"] == "Edit" and c["res"] == "Ok":
+                    itemcls.add("edit")
+                if c["call"] == "Delete" and c["res"] == "Ok" and c["pos"] in members:
+                    itemcls.add("delete.member")
+                if c["call"] == "Decrypt" and c0["R"] >= 5 and c0["olen"] == 0 and c0["ulen"] > 0 and len(c.get("pw", [0])) == 0:
+                    itemcls.add("empty.offer.with.empty.owner.R56")
+                if c["call"] == "Encrypt" and any(itm["crypt"]["ind"] and itm["len"] >= 16 for itm in c["items"]):
+                    itemcls.add("crypt.indirect.parameters")
+            cfgs.add(cfg_class(reset["cfg"]))
+            u, o = "".join(map(chr, reset["user"])), "".join(map(chr, reset["owner"]))
+            pws |= pw_class(u) | pw_class(o) | ({"owner=user"} if u == o else set())
+            chk.case(json.dumps([reset["cfg"], reset["user"], reset["owner"], reset["objs"], [[c["call"], c.get("pw", "")] for c in calls]])
+                     if any(c["call"] == "Encrypt" and c["res"] == "Ok" for c in calls) else None)
+            if calls:
+                for itm in calls[0]["items"]:
+                    if itm["kind"] == "str" and itm["insd"]:
+                        itemcls.add("streamdict")
+                    if itm["otyp"] == "Metadata":
+                        itemcls.add("metadata")
+                    if itm["crypt"]["f"] != "none":
+                        itemcls.add("crypt." + itm["crypt"]["f"])
+                    if itm["len"] == 0:
+                        itemcls.add("empty." + itm["kind"])
+                    if itm["len"] >= 16 and not itm["insd"]:
+                        itemcls.add("long." + itm["kind"])
+                    if itm["otyp"] == "ObjStm":
+                        itemcls.add("objstm.container")
+                    if itm["osm"]:
+                        itemcls.add("objstm.member")
+        return cfgs, pws, itemcls
+
+    cfgs, pws, itemcls = classes_of(rruns)
+
+    def missing_now():
+        return (need - cfgs) | ({"empty", "ascii", "non-latin", "gt32", "gt127", "owner=user"} - pws) | \
+                  ({"streamdict", "metadata", "crypt.name", "crypt.arr", "crypt.nodp", "crypt.noname", "empty.str", "empty.stream", "long.str", "long.stream",
+                    "pw.user.unencodable", "pw.owner.unencodable", "pw.emoji", "pw.mixed", "offer.differs.in.unencodable",
+                    "rekey.V4+.to.V2-", "crypt.entry.belowV4", "two-revision.objstm.file.loaded", "two-revision.objstm.file.autodecrypt",
+                    "two-revision.objstm.file.decrypt", "delete.member", "indirect.length.aes.viafile", "cf.custom-name.identity.default", "identity.override.name.dict.string",
+                    "identity.override.noname.dict.string", "identity.override.nodp.dict.string", "identity.override.missing-name.dict.string", "empty.offer.with.empty.owner.R56", "crypt.indirect.parameters", "incremental.update.of.encrypted.file", "incremental.update.of.encrypted.file.emptypw", "metadata.dict.string.em=True", "metadata.dict.string.em=False",
+                    "prep.mem", "prep.file-objstm", "prep.file-xrefstm", "objstm.container", "objstm.member", "edit", "member.edit.roundtrip"} - itemcls)
+
+    # A seeded sample can miss one of the (many) demanded classes: further seeded batches are recorded and judged until
+    # every class is there (at most 3; what is still missing then is reported as vacuity).
+    missing, batch = missing_now(), 0
+    while missing and batch < 3:
+        batch += 1
+        tr, ins = os.path.join(w, "rec%d.ndjson" % batch), os.path.join(w, "rec%d.inputs.ndjson" % batch)
+        run_bin("c05", ["record", "--seed", vlib.seed() + 7919 * batch, "--n", nrec, "--out", tr, "--inputs", ins, "--threads", 4 if quick else 12])
+        evs2 = read_ndjson(tr)
+        vs2, d2, g2 = judge_events(tr, len(evs2), "c05rec%d" % batch, 2 if quick else 10, tcfg)
+        chk.states += d2
+        chk.transitions += g2
+        in2 = {r["case"]: {k: r[k] for k in ("cfg", "user", "owner", "calls", "seed", "prep", "doc", "file") if k in r} for r in read_ndjson(ins)}
+        seen2, drift2 = triage(chk, evs2, vs2, in2, None)
+        for k, v in seen2.items():
+            rseen[k] = rseen.get(k, 0) + v
+        rdrift += drift2
+        more = runs_of(evs2)
+        c2, p2, i2 = classes_of(more)
+        cfgs |= c2
+        pws |= p2
+        itemcls |= i2
+        rruns += more
+        revs += evs2
+        missing = missing_now()
+    chk.extra["recorded_batches"] = 1 + batch
     if missing:
         raise vlib.ToolError("vacuous trace set: classes never recorded: %s" % sorted(missing))
     # anti-vacuity from the inputs: the call patterns that exercise each clause were driven
